@@ -129,8 +129,17 @@ def model_build():
 def run_lines(binary, lines, timeout=600, env=None, cwd=None):
     """feed lines to a line-protocol driver; returns (rc, list of output lines, stderr-ish tail)"""
     data = "\n".join(lines) + "\n"
+    pre = None
+    if isinstance(binary, str) and os.path.basename(binary) == "modeldrv":
+        # extracted list functions are not tail recursive: long values need a deep native stack
+        def pre():
+            import resource
+            try:
+                resource.setrlimit(resource.RLIMIT_STACK, (resource.RLIM_INFINITY, resource.RLIM_INFINITY))
+            except (ValueError, OSError):
+                pass
     p = subprocess.run([binary] if isinstance(binary, str) else binary, input=data, stdout=subprocess.PIPE,
-                       stderr=subprocess.PIPE, text=True, errors="replace", timeout=timeout, env=env, cwd=cwd)
+                       stderr=subprocess.PIPE, text=True, errors="replace", timeout=timeout, env=env, cwd=cwd, preexec_fn=pre)
     out = p.stdout.split("\n")
     if out and out[-1] == "":
         out.pop()
@@ -200,7 +209,15 @@ SAN_ENV = dict(os.environ, ASAN_OPTIONS="detect_leaks=1:abort_on_error=0:exitcod
 
 class Rng:
     def __init__(self, seed):
-        self.s = (seed * 0x9E3779B97F4A7C15 + 0x1234567) & (2**64 - 1)
+        # the seed goes through the splitmix64 finaliser first: with a linear map of the seed
+        # Rng(n+1) would be Rng(n)'s stream shifted by one draw
+        z = (seed + 0x1234567) & (2**64 - 1)
+        for _ in range(2):
+            z = (z + 0x9E3779B97F4A7C15) & (2**64 - 1)
+            z = ((z ^ (z >> 30)) * 0xBF58476D1CE4E5B9) & (2**64 - 1)
+            z = ((z ^ (z >> 27)) * 0x94D049BB133111EB) & (2**64 - 1)
+            z = z ^ (z >> 31)
+        self.s = z
 
     def next(self):
         self.s = (self.s + 0x9E3779B97F4A7C15) & (2**64 - 1)
